@@ -155,3 +155,23 @@ Proof.
   split; [vm_compute; lia|]. split; [vm_compute; lia|]. split; [vm_compute; lia|].
   vm_compute. split; [discriminate|reflexivity].
 Qed.
+
+(* ---- C14 convergence: that round as a one-round history ---- *)
+Definition e14_next : outcome := match outcome_step nv_h nv_cf 2 e14_prev (map fst e6_tagged) with Ok o => o | _ => e14_prev end.
+Definition e14_r0 : wround := {| wr_seq := 2; wr_prev_bytes := e6_prev_bytes; wr_prev := e14_prev; wr_ss := e6_ss; wr_next := e14_next |}.
+Example e14_history :
+  verify_defs (fun _ => true) e14_target = true /\
+  Forall (wround_ok nv_h (fun _ => None) (fun _ => true) nv_cf e14_target) [e14_r0] /\ wlinked [e14_r0] /\
+  (size (dom (o_defs (wr_prev e14_r0)) ∪ dom e14_target) <= chan_cap)%nat /\
+  (rounds_bound (o_defs (wr_prev e14_r0)) e14_target <= length [e14_r0])%nat /\
+  o_defs (wr_next e14_r0) = e14_target.
+Proof.
+  destruct e14_round as (H1 & H2 & H3 & H4 & H5 & H6 & H7 & H8). destruct e6_round as (Hb & Hok & _).
+  split; [exact H3|]. split.
+  { constructor; [|constructor]. unfold wround_ok, e14_r0, wr_tagged, wr_acc. cbn [wr_seq wr_prev_bytes wr_prev wr_ss wr_next].
+    split; [exact Hb|]. split; [exact Hok|]. split; [lia|]. split; [exact H1|]. split; [exact H2|]. split; [exact H4|].
+    split; [exact H5|]. split; [exact H6|]. unfold e14_next.
+    destruct (outcome_step nv_h nv_cf 2 e14_prev (map fst e6_tagged)) as [o| |] eqn:E; try contradiction.
+    split; [exact E|exact (proj1 H8)]. }
+  split; [exact I|]. split; [exact H7|]. split; [vm_compute; lia|]. vm_compute. reflexivity.
+Qed.
